@@ -41,12 +41,16 @@ func (p *cfmt) Setup(env *fw.Env) error {
 	case "tree":
 		p.RuleS = src + ". Oracle: format.Source succeeds, its output parses without error and is shape-equal (reflection comparator ignoring positions, comments, resolver data; numeric literals by value; imports of a declaration as a set; redundant parentheses and empty statements ignored — gofmt conventions inherited by the formatter) to the tree of the input. Non-trivial = source with >=12 tokens; distinct by source text."
 	case "idem":
-		p.RuleS = src + ". Oracle: format.Source(format.Source(x)) == format.Source(x) byte for byte. Non-trivial = source with >=12 tokens."
+		p.RuleS = src + ", tightened variants (optional blanks next to punctuation removed) and files of one-line functions / function literals whose printed width lies around the printer's 100-column limit, spelled with and without the optional blanks. Oracle: format.Source(format.Source(x)) == format.Source(x) byte for byte. Non-trivial = source with >=12 tokens."
 	default:
 		p.RuleS = src + "; most cases additionally get 1..4 uniquely numbered comments (/*cN*/, //cN, #cN, multi-line) injected at random token boundaries (kept iff the source still parses). Oracle: the sequence of comment texts (scanner, normalised by trimming and removing block-comment re-indentation) of the output equals that of the input: every comment exactly once, same order. Non-trivial = source with >=1 comment."
 	}
 	p.Assume = []string{"sources whose parse fails are discarded (domain = syntactically valid)", "formatter runs in crash-isolated workers (it can terminate the process)"}
 	p.Floor = map[string]int{"#evaluations": p.N / 2, "#nontrivial": 2000, "formatted": p.N / 2, "kind:corpus": 500, "kind:gen-xgo": 300, "kind:gen-class": 100, "kind:gen-go": 100}
+	if p.which == "idem" {
+		p.Floor["kind:near-limit-one-liner"] = extra / 20
+		p.Floor["kind:tightened"] = extra / 20
+	}
 	if p.which == "comments" {
 		p.Floor["kind:inject"] = 2000
 		p.Floor["comments-compared"] = 10000
@@ -84,11 +88,21 @@ func (p *cfmt) Case(i int) fw.Case {
 			c.P = map[string]string{"class": "1"}
 		}
 		return c
+	} else if p.which == "idem" && r.Chance(1, 8) {
+		// one-line functions whose header + body is close to the printer's 100-column limit, spelled with and
+		// without the optional blanks (layout decisions must not depend on how the source was spaced)
+		return fw.Case{Kind: "near-limit-one-liner", In: []byte(nearLimitOneLiners(r))}
 	} else {
 		for {
 			it, kind = astSource(p.Env, r, 1<<30)
 			if kind != "inject" {
 				break
+			}
+		}
+		if p.which == "idem" && r.Chance(1, 4) {
+			t := tighten(it.Src)
+			if _, _, ok := parseValid(srcItem{Name: it.Name, Src: t, Class: it.Class}); ok {
+				it.Src, kind = t, "tightened"
 			}
 		}
 	}
@@ -519,4 +533,58 @@ func nodeChainAt(it srcItem, off int) string {
 		chain[i], chain[j] = chain[j], chain[i]
 	}
 	return "in:" + strings.Join(chain, "<")
+}
+
+// tighten removes the blanks (not newlines) next to punctuation tokens: `f(a, b int) int {` -> `f(a,b int)int{`.
+func tighten(src []byte) []byte {
+	toks := scanTokens(src, true)
+	if len(toks) < 2 {
+		return src
+	}
+	punct := func(b byte) bool { return strings.IndexByte(",()[]{};", b) >= 0 }
+	var b strings.Builder
+	b.Write(src[:toks[0].off])
+	for i, t := range toks {
+		b.Write(src[t.off:t.end])
+		if i+1 == len(toks) {
+			b.Write(src[t.end:])
+			break
+		}
+		gap := string(src[t.end:toks[i+1].off])
+		if strings.Trim(gap, " \t") == "" && gap != "" && t.end > t.off && (punct(src[t.end-1]) || punct(src[toks[i+1].off])) {
+			gap = ""
+		}
+		b.WriteString(gap)
+	}
+	return []byte(b.String())
+}
+
+// nearLimitOneLiners writes a file of one-line functions and function literals whose printed width lies between 90
+// and 112 columns, each in a canonical and in a tight spelling.
+func nearLimitOneLiners(r *fw.Rand) string {
+	var b strings.Builder
+	for k := 0; k < 6; k++ {
+		nparams := r.Range(2, 6)
+		var ps []string
+		for i := 0; i < nparams; i++ {
+			ps = append(ps, fmt.Sprintf("%s%d", strings.Repeat("p", r.Range(1, 6)), i))
+		}
+		body := "return " + strings.Join(ps, " + ")
+		pad := r.Range(0, 40)
+		name := "f" + strings.Repeat("x", pad) + fmt.Sprint(k)
+		tight := r.Bool()
+		sep, sp := ", ", " "
+		if tight {
+			sep, sp = ",", ""
+		}
+		switch r.Intn(3) {
+		case 0:
+			fmt.Fprintf(&b, "func %s(%s int)%sint%s{%s%s%s}\n\n", name, strings.Join(ps, sep), sp, sp, sp, body, sp)
+		case 1:
+			fmt.Fprintf(&b, "var %s = func(%s int)%sint%s{%s%s%s}\n\n", name, strings.Join(ps, sep), sp, sp, sp, body, sp)
+		default:
+			fmt.Fprintf(&b, "func %s(%s int)%s(n int,%serr error)%s{%sn = %s; return%s}\n\n", name, strings.Join(ps, sep), sp, sp, sp, sp, strings.Join(ps, " + "), sp)
+		}
+	}
+	return b.String()
 }
